@@ -275,7 +275,7 @@ def createSawIndexNoGuard (g : G) (c : Client) (key val : Bytes) (rev : Nat) (ol
   match parseRevision old with
   | none => finishCreate g c key val rev .err
   | some (_, tomb) =>
-    if tomb then g.setClient { c with pc := .createOver rev old }
+    if tomb then g.setClient { c with pc := .createOver rev old 0 }
     else finishCreate g c key val rev (.conflict none none)
 
 /-- `stepClient` with that creator (the two arms that look at the old index value). -/
